@@ -206,44 +206,54 @@ leaf objects (as `typing.Literal` demands). -/
 
 /-- **The heap program of `structure` computes what the pure model computes — every type (unions and NamedTuples
 included), every configuration (Converter / BaseConverter, both strategies, BOTH validation modes, forbid_extra_keys),
-every store, every argument, every sufficient fuel**: with fuel `n ≥ k + dW w + 1` the call returns iff
-`convStructure` (= `stF`, = `stD` up to the error tree, `C04_templates_agree`) accepts, and the returned value reads,
-in the final store, as the pure result. -/
+every store, every argument, every sufficient fuel**: with fuel `n ≥ k + dW w + 1` a returned value reads, in the final
+store, as the result of `convStructure` (= `stF`, = `stD` up to the error tree, `C04_templates_agree`), and a call that
+raises WITHOUT having left the modelled fragment (`unmod = false`) means `convStructure` rejects.
+
+Partial.  The full statement (NOT a theorem since the pure model iterates `str` / `bytes` payloads -- `stLF`/`stLD`,
+`structure("12", list[int]) == [1, 2]` -- while the heap planner answers `unmodelled` for them, `PlanSt.noItems`):
+  `(run w hc n (.st t) v st).1 = none → convStructure w hc.cfg t o = none`   (no `unmod` premise).
+What is missing is exactly the iteration of a `str` / `bytes` argument at a collection / heterogeneous-tuple / NamedTuple
+/ tuple-strategy class position; the ghost flag `St.unmod` is set by the program `unmodelled` and never reset
+(`Ev.unmodKeep`). -/
 theorem C11_refines_pure_structure (w : World) (hc : HCfg) (hovr : hc.ovr = []) (hw : WLit w)
     (t : Ty) (hl : litLeaf t = true) (v : HVal) (st : St)
     (hwf : wfStore st = true) (hps : properStore st = true) (hv : inB st.cells.length v = true) (hpv : Proper v)
     (k : Nat) (o : Obj) (hden : denote st.cells k v = some o) (n : Nat) (hn : k + dW w + 1 ≤ n) :
     (∀ r, (run w hc n (.st t) v st).1 = some r →
       ∃ y, convStructure w hc.cfg t o = some y ∧ denote (run w hc n (.st t) v st).2.cells (k + dW w) r = some y) ∧
-    ((run w hc n (.st t) v st).1 = none → convStructure w hc.cfg t o = none) := by
+    ((run w hc n (.st t) v st).1 = none → (run w hc n (.st t) v st).2.unmod = false →
+      convStructure w hc.cfg t o = none) := by
   obtain ⟨K, rfl⟩ : ∃ K, n = K + dW w + 1 := ⟨n - dW w - 1, by omega⟩
   have h := run_ref_st w hc hovr hw st.cells.length K (.st t) v st k o (Good.of_wf hwf hps) (inB_argOld hv) hpv hden
     (by omega) hl
   rw [conv_eq]
-  exact ⟨h.1, fun hr => h.2 hr trivial⟩
+  exact ⟨h.1, fun hr hu => h.2 hr trivial hu⟩
 
 /-- the same ok/err in one line -/
 theorem C11_refines_pure_structure_okerr (w : World) (hc : HCfg) (hovr : hc.ovr = []) (hw : WLit w)
     (t : Ty) (hl : litLeaf t = true) (v : HVal) (st : St)
     (hwf : wfStore st = true) (hps : properStore st = true) (hv : inB st.cells.length v = true) (hpv : Proper v)
-    (k : Nat) (o : Obj) (hden : denote st.cells k v = some o) (n : Nat) (hn : k + dW w + 1 ≤ n) :
+    (k : Nat) (o : Obj) (hden : denote st.cells k v = some o) (n : Nat) (hn : k + dW w + 1 ≤ n)
+    (hu : (run w hc n (.st t) v st).2.unmod = false) :
     (run w hc n (.st t) v st).1.isSome = (convStructure w hc.cfg t o).isSome := by
   have h := C11_refines_pure_structure w hc hovr hw t hl v st hwf hps hv hpv k o hden n hn
   cases hr : (run w hc n (.st t) v st).1 with
-  | none => rw [h.2 hr]; rfl
+  | none => rw [h.2 hr hu]; rfl
   | some r => obtain ⟨y, hy, _⟩ := h.1 r hr; rw [hy]; rfl
 
 /-- **Fuel eliminated**: two runs with sufficient fuel agree on ok/err and their results read as the same object. -/
 theorem C11_structure_fuel_independent (w : World) (hc : HCfg) (hovr : hc.ovr = []) (hw : WLit w)
     (t : Ty) (hl : litLeaf t = true) (v : HVal) (st : St)
     (hwf : wfStore st = true) (hps : properStore st = true) (hv : inB st.cells.length v = true) (hpv : Proper v)
-    (k : Nat) (o : Obj) (hden : denote st.cells k v = some o) (n n' : Nat) (hn : k + dW w + 1 ≤ n) (hn' : k + dW w + 1 ≤ n') :
+    (k : Nat) (o : Obj) (hden : denote st.cells k v = some o) (n n' : Nat) (hn : k + dW w + 1 ≤ n) (hn' : k + dW w + 1 ≤ n')
+    (hu : (run w hc n (.st t) v st).2.unmod = false) (hu' : (run w hc n' (.st t) v st).2.unmod = false) :
     (run w hc n (.st t) v st).1.isSome = (run w hc n' (.st t) v st).1.isSome ∧
     ∀ r r', (run w hc n (.st t) v st).1 = some r → (run w hc n' (.st t) v st).1 = some r' →
       ∃ y, denote (run w hc n (.st t) v st).2.cells (k + dW w) r = some y ∧
            denote (run w hc n' (.st t) v st).2.cells (k + dW w) r' = some y := by
-  refine ⟨by rw [C11_refines_pure_structure_okerr w hc hovr hw t hl v st hwf hps hv hpv k o hden n hn,
-    C11_refines_pure_structure_okerr w hc hovr hw t hl v st hwf hps hv hpv k o hden n' hn'], fun r r' hr hr' => ?_⟩
+  refine ⟨by rw [C11_refines_pure_structure_okerr w hc hovr hw t hl v st hwf hps hv hpv k o hden n hn hu,
+    C11_refines_pure_structure_okerr w hc hovr hw t hl v st hwf hps hv hpv k o hden n' hn' hu'], fun r r' hr hr' => ?_⟩
   obtain ⟨y, hy, hd1⟩ := (C11_refines_pure_structure w hc hovr hw t hl v st hwf hps hv hpv k o hden n hn).1 r hr
   obtain ⟨y', hy', hd2⟩ := (C11_refines_pure_structure w hc hovr hw t hl v st hwf hps hv hpv k o hden n' hn').1 r' hr'
   rw [hy] at hy'; cases hy'
@@ -295,7 +305,8 @@ theorem C11_refines_pure (w : World) (hc : HCfg) (hovr : hc.ovr = []) (hw : WLit
     (k : Nat) (o : Obj) (hden : denote st.cells k v = some o) (n : Nat) (hn : k + dW w + 1 ≤ n) :
     ((∀ r, (run w hc n (.st t) v st).1 = some r →
         ∃ y, convStructure w hc.cfg t o = some y ∧ denote (run w hc n (.st t) v st).2.cells (k + dW w) r = some y) ∧
-      ((run w hc n (.st t) v st).1 = none → convStructure w hc.cfg t o = none)) ∧
+      ((run w hc n (.st t) v st).1 = none → (run w hc n (.st t) v st).2.unmod = false →
+        convStructure w hc.cfg t o = none)) ∧
     (conf w t o = true → OKU w o = true → ∀ r, (run w hc n (.un t) v st).1 = some r →
       denote (run w hc n (.un t) v st).2.cells k r = some (convUnstructure w hc.cfg t o)) :=
   ⟨C11_refines_pure_structure w hc hovr hw t hl v st hwf hps hv hpv k o hden n hn,
